@@ -538,7 +538,14 @@ static void check_contents(const struct mstate* m, const struct op* ops, int upt
 static uint64_t g_shared_steps, g_free_steps, g_ops_executed, g_op_hist[OP_NOPS], g_refused_ops, g_refusals_hit;
 
 /* Runs one history. Returns the number of ops that were applicable and executed. */
+static bool g_switch_allocators;
+static uint64_t g_allocator_switches;
 static int run_history(const struct op* ops, int nops, bool allow_oob) {
+  /* "installed with cbor_set_allocs before any item exists": between two histories no item exists, so a client may
+   * install a different triple; the library must use the triple installed last, for every request and release */
+  if (g_switch_allocators) {
+    if (g_allocator_switches++ & 1) { ALLOC = A_TAGGED; tg_install(); } else { ALLOC = A_ARENA; ar_install(); if (AR_live == 0) ar_reset(); }
+  }
   struct mstate m;
   memset(&m, 0, sizeof m);
   memset(m.slot, -1, sizeof m.slot);
@@ -984,6 +991,7 @@ static void setup(void) {
   if (ALLOC == A_TRACK) { ta_install(); if (!ta_selftest()) vh_die("track allocator self-test failed"); ta_set_free_hook(free_hook); if (P == 13) ta_set_cap((size_t)1 << 20); if (P == 13 && strstr(O.stage, "zeronull")) ta_set_zero_null(true); }
   else if (ALLOC == A_TAGGED) tg_install();
   else { ar_install(); ar_reset(); }
+  g_switch_allocators = P == 13 && strstr(O.stage, "switch") != NULL;
   devnull = fopen("/dev/null", "w");
   static char iobuf[1 << 16];
   setvbuf(devnull, iobuf, _IOFBF, sizeof iobuf);
@@ -995,6 +1003,7 @@ void* __real_calloc(size_t, size_t);
 void* __real_realloc(void*, size_t);
 void __real_free(void*);
 static void bypass(const char* what) {
+  if (ALLOC != A_ARENA) return; /* the tagged and tracking allocators are themselves backed by the C library */
   VH_bypass_calls++;
   int save = vh_in_lib;
   vh_in_lib = 0;
@@ -1169,6 +1178,7 @@ static void hist_run(void) {
       uint64_t nh = O.budget ? O.budget : (O.thorough ? 500000 : 20000);
       for (uint64_t u = 0; u < nh; u++) if ((int)(u % (uint64_t)O.nshards) == O.shard) random_history(u, 60, false);
     }
+    if (g_switch_allocators) vh_count_dyn("allocator_triples_installed_between_histories", g_allocator_switches);
     vh_count_dyn("steps_with_a_shared_item", g_shared_steps);
     vh_count_dyn("steps_that_released_memory", g_free_steps);
     vh_count_dyn("ops_executed", g_ops_executed);
